@@ -133,7 +133,7 @@ def main(argv):
     if hasattr(mod, "phases"):
         # deterministic extra phases (exhaustive enumerations, corpus workloads); each runs in one designated shard
         for name, fn in mod.phases(tier):
-            if (zlib.crc32(name.encode()) % nshards) != shard:
+            if not getattr(fn, "all_shards", False) and (zlib.crc32(name.encode()) % nshards) != shard:
                 continue
             LOG.begin()
             tp = time.time()
@@ -148,7 +148,7 @@ def main(argv):
             for v in viol:
                 if _mine(mod, v):
                     pf.append({"claim": f"{v['monitor']}.{v['claim']}", "witness": v["witness"], "w": v.get("w"),
-                               "case": {"phase": name}, "source": "monitor", "at": v.get("at")})
+                               "case": {"phase": name, "desc": v.get("case_desc")}, "source": "monitor", "at": v.get("at")})
                 else:
                     c = f"{v['property']}:{v['monitor']}.{v['claim']}"
                     col.cross[c] = col.cross.get(c, 0) + 1
